@@ -583,3 +583,210 @@ Proof.
   intros st Hex. destruct (Hgen ops (bufs_new max) st (binv_new max)) as [H1 H2]; [cbn; lia|exact Hex|].
   cbn [bufs_new bmax] in H2. rewrite H2 in H1. split; assumption.
 Qed.
+
+(* ---------------------------------------------------------------- return path *)
+Lemma buffer_pack_roundtrip : forall id len, id <= U32_MAX -> len <= U32_MAX ->
+  buffer_id (buffer_pack id len) = id /\ buffer_len (buffer_pack id len) = len.
+Proof.
+  intros id len Hid Hlen. unfold U32_MAX in *. unfold buffer_id, buffer_len, buffer_pack.
+  assert (Hdiv : (id * 4294967296 + len) / 4294967296 = id).
+  { rewrite N.div_add_l by lia. rewrite (N.div_small len) by lia. lia. }
+  assert (Hmod : (id * 4294967296 + len) mod 4294967296 = len).
+  { rewrite N.add_comm, N.mod_add by lia. apply N.mod_small. lia. }
+  rewrite Hdiv, Hmod. split; [apply N.mod_small; lia|reflexivity].
+Qed.
+
+Lemma bexec_app : forall a b st,
+  bexec st (a ++ b) = match bexec st a with Some s => bexec s b | None => None end.
+Proof.
+  induction a as [|o t IH]; intros b st; cbn [app bexec]; [reflexivity|].
+  destruct (bstep st o) as [out st1]. destruct out; try apply IH; reflexivity.
+Qed.
+
+(* a host function returning data, in any reachable table state *)
+Theorem host_call_result_is_live_buffer : forall max ops st m pairs f,
+  bexec (bufs_new max) ops = Some st -> Forall u32_pair pairs ->
+  (Exists (out_of_mem m) pairs /\ host_call st m pairs f = (Err MemoryAccessError, st))
+  \/ (Forall (in_mem m) pairs /\
+      let r := f (map (fun a => slice m (fst a) (fst a + snd a)) pairs) in
+      N.of_nat (length r) <= U32_MAX -> bnext st < U32_MAX ->
+      if bmax st <=? N.of_nat (length (btab st))
+      then host_call st m pairs f = (Err TooManyBuffers, st)
+      else exists st',
+        host_call st m pairs f = (Ok (buffer_pack (bnext st) (N.of_nat (length r))), st')
+        /\ bexec (bufs_new max) (ops ++ [BAlloc r]) = Some st'
+        /\ im_find (bnext st) (btab st') = Some r
+        /\ bnext st' = bnext st + 1).
+Proof.
+  intros max ops st m pairs f Hex Hall.
+  pose proof (reachable_inv _ _ _ Hex) as Hinv.
+  unfold host_call, host_call_w. fold (host_reads m pairs).
+  destruct (host_reads_exact_or_error m pairs Hall) as [[Hin Heq]|[Hout Heq]]; rewrite Heq.
+  - right. split; [exact Hin|].
+    set (r := f (map (fun a => slice m (fst a) (fst a + snd a)) pairs)). intros Hlen Hnext.
+    assert (Hmod : N.of_nat (length r) mod 4294967296 = N.of_nat (length r))
+      by (apply N.mod_small; unfold U32_MAX in Hlen; lia).
+    destruct (N.leb_spec (bmax st) (N.of_nat (length (btab st)))) as [Hfull|Hroom].
+    { assert (Ha : allocate_buffer st r = (Err TooManyBuffers, st)).
+      { unfold allocate_buffer.
+        destruct (N.ltb_spec U32_MAX (N.of_nat (length r))) as [Hbad|_]; [lia|].
+        destruct (N.leb_spec (bmax st) (N.of_nat (length (btab st)))) as [_|Hbad]; [reflexivity|lia]. }
+      rewrite Ha. reflexivity. }
+    assert (Ha : allocate_buffer st r =
+                 (Ok (bnext st, N.of_nat (length r)),
+                  {| btab := im_insert (bnext st) r (btab st); bnext := bnext st + 1; bmax := bmax st |})).
+    { unfold allocate_buffer.
+      destruct (N.ltb_spec U32_MAX (N.of_nat (length r))) as [Hbad|_]; [lia|].
+      destruct (N.leb_spec (bmax st) (N.of_nat (length (btab st)))) as [Hbad|_]; [lia|].
+      destruct (N.ltb_spec U32_MAX (bnext st + 1)) as [Hbad|_]; [unfold U32_MAX in *; lia|].
+      rewrite Hmod. reflexivity. }
+    rewrite Ha. eexists. split; [reflexivity|].
+    destruct (allocate_ok_spec _ _ _ _ _ Hinv Ha) as (_ & _ & _ & Htab & Hn & _ & _ & Hinv').
+    split; [|split; [|exact Hn]].
+    + rewrite bexec_app, Hex. cbn [bexec bstep]. rewrite Ha. reflexivity.
+    + apply in_im_find; [exact (proj1 Hinv')|]. rewrite Htab. apply in_or_app. right. left. reflexivity.
+  - left. split; [exact Hout|reflexivity].
+Qed.
+
+(* the WASM sequence: call, then buffer_consume(id of the returned value, dest) *)
+Theorem call_then_consume_exact_or_error : forall max ops st m pairs f dest,
+  bexec (bufs_new max) ops = Some st -> Forall u32_pair pairs -> Forall (in_mem m) pairs ->
+  dest <= U32_MAX ->
+  let r := f (map (fun a => slice m (fst a) (fst a + snd a)) pairs) in
+  N.of_nat (length r) <= U32_MAX -> bnext st < U32_MAX ->
+  N.of_nat (length (btab st)) < bmax st ->
+  let v := buffer_pack (bnext st) (N.of_nat (length r)) in
+  buffer_id v = bnext st /\ buffer_len v = N.of_nat (length r) /\
+  ((dest + N.of_nat (length r) <= msize m /\
+    exists st'' m', call_then_consume st m pairs f dest = (Ok v, st'', m')
+                    /\ writes_exactly m m' dest r /\ im_find (bnext st) (btab st'') = None)
+   \/ (msize m < dest + N.of_nat (length r) /\
+       exists st'', call_then_consume st m pairs f dest = (Err MemoryAccessError, st'', m))).
+Proof.
+  intros max ops st m pairs f dest Hex Hall Hin Hdest r Hlen Hnext Hroom v.
+  assert (Hid : bnext st <= U32_MAX) by (unfold U32_MAX in *; lia).
+  destruct (buffer_pack_roundtrip (bnext st) (N.of_nat (length r)) Hid Hlen) as [Hbid Hblen].
+  split; [exact Hbid|]. split; [exact Hblen|].
+  destruct (host_call_result_is_live_buffer max ops st m pairs f Hex Hall) as [[Hout _]|[_ Hok]].
+  { exfalso. apply Exists_exists in Hout. destruct Hout as [a [Ha Hlt]].
+    rewrite Forall_forall in Hin. specialize (Hin a Ha). unfold in_mem, out_of_mem in *. lia. }
+  specialize (Hok Hlen Hnext).
+  destruct (N.leb_spec (bmax st) (N.of_nat (length (btab st)))) as [Hbad|_]; [lia|].
+  destruct Hok as (st' & Hcall & Hex' & Hfind & Hn').
+  pose proof (consume_buffer_exact_or_error max (ops ++ [BAlloc r]) st' m (bnext st) dest Hex' Hdest) as Hc.
+  rewrite Hfind in Hc. specialize (Hc Hlen). destruct Hc as (st'' & Hbc & Hcases).
+  pose proof (reachable_inv _ _ _ Hex') as Hinv'.
+  destruct (consume_ok_spec _ _ _ _ Hinv' Hbc) as (_ & _ & _ & _ & _ & _ & Hnone & _).
+  unfold call_then_consume, call_then_consume_w. fold (host_call st m pairs f). rewrite Hcall.
+  unfold r in Hbid. rewrite Hbid. fold (consume_buffer st' m (bnext st) dest).
+  destruct Hcases as [[Hfit (m' & Heq & Hw)]|[Hover Heq]]; rewrite Heq.
+  - left. split; [exact Hfit|]. exists st'', m'. repeat split; try assumption; apply Hw.
+  - right. split; [exact Hover|]. exists st''. reflexivity.
+Qed.
+
+(* ---------------------------------------------------------------- refinement to the abstract table *)
+Lemma assoc_remove_in : forall id l k x, In (k, x) (assoc_remove id l) <-> In (k, x) l /\ k <> id.
+Proof.
+  intros id l k x. induction l as [|[k0 d] t IH]; cbn [assoc_remove]; [cbn; tauto|].
+  destruct (N.eqb_spec k0 id) as [->|Hne].
+  - rewrite IH. cbn [In]. split.
+    + intros [Hin Hk]. split; [right; exact Hin|exact Hk].
+    + intros [[Heq|Hin] Hk]; [injection Heq as -> _; congruence|split; assumption].
+  - cbn [In]. rewrite IH. split.
+    + intros [Heq|[Hin Hk]]; [injection Heq as <- <-; split; [left; reflexivity|exact Hne]|split; [right; exact Hin|exact Hk]].
+    + intros [[Heq|Hin] Hk]; [left; exact Heq|right; split; assumption].
+Qed.
+
+Lemma assoc_remove_nodup : forall id l, NoDup (keys l) -> NoDup (keys (assoc_remove id l)).
+Proof.
+  intros id l. induction l as [|[k0 d] t IH]; cbn [assoc_remove keys map fst]; intros Hnd; [constructor|].
+  inversion Hnd as [|? ? Hnotin Hnd']; subst.
+  destruct (N.eqb_spec k0 id) as [->|Hne]; [apply IH; exact Hnd'|].
+  cbn [keys map fst]. constructor; [|apply IH; exact Hnd'].
+  intros Hin. apply Hnotin. destruct (key_in_pair _ _ Hin) as [x Hx].
+  apply assoc_remove_in in Hx. destruct Hx as [Hx _]. apply (in_map fst) in Hx. exact Hx.
+Qed.
+
+Lemma nodup_keys_nodup : forall (l : imap), NoDup (keys l) -> NoDup l.
+Proof. intros l. unfold keys. apply NoDup_map_inv. Qed.
+
+Definition R (st : bufs) (sp : spec) : Prop :=
+  bnext st = snext sp /\ bmax st = smax sp /\ binv st /\ NoDup (keys (slive sp)) /\
+  forall k x, In (k, x) (btab st) <-> In (k, x) (slive sp).
+
+Lemma R_length : forall st sp, R st sp -> length (btab st) = length (slive sp).
+Proof.
+  intros st sp (_ & _ & [Hnd _] & Hnd2 & Hin). apply Permutation_length.
+  apply NoDup_Permutation; [apply nodup_keys_nodup; exact Hnd|apply nodup_keys_nodup; exact Hnd2|].
+  intros [k x]. apply Hin.
+Qed.
+
+Lemma R_find : forall st sp id, R st sp -> im_find id (btab st) = im_find id (slive sp).
+Proof.
+  intros st sp id (_ & _ & [Hnd _] & Hnd2 & Hin).
+  destruct (im_find id (btab st)) as [d|] eqn:H1.
+  - symmetry. apply in_im_find; [exact Hnd2|]. apply Hin. apply im_find_in. exact H1.
+  - destruct (im_find id (slive sp)) as [d|] eqn:H2; [|reflexivity].
+    apply im_find_in in H2. apply Hin in H2. apply (in_im_find _ _ _ Hnd) in H2. congruence.
+Qed.
+
+Lemma R_new : forall max, R (bufs_new max) (spec_new max).
+Proof.
+  intros max. repeat split; try apply binv_new; cbn; try constructor; auto.
+Qed.
+
+Lemma step_refines : forall st sp o, R st sp ->
+  fst (bstep st o) = fst (spec_step sp o) /\
+  (fst (bstep st o) <> OPanic -> R (snd (bstep st o)) (snd (spec_step sp o))).
+Proof.
+  intros st sp o HR. pose proof HR as (Hn & Hm & Hinv & Hnd2 & Hin).
+  pose proof (R_length _ _ HR) as Hlen. destruct o as [d|id]; cbn [bstep spec_step].
+  - unfold allocate_buffer. rewrite <- Hn, <- Hm, <- Hlen.
+    destruct (N.ltb_spec U32_MAX (N.of_nat (length d))) as [Hbig|Hsmall]; cbn [fst snd].
+    { split; [reflexivity|intros H; exfalso; apply H; reflexivity]. }
+    destruct (N.leb_spec (bmax st) (N.of_nat (length (btab st)))) as [Hfull|Hroom]; cbn [fst snd].
+    { split; [reflexivity|intros _; exact HR]. }
+    destruct (N.ltb_spec U32_MAX (bnext st + 1)) as [Hov|Hnext]; cbn [fst snd].
+    { split; [reflexivity|intros H; exfalso; apply H; reflexivity]. }
+    assert (Hmod : N.of_nat (length d) mod 4294967296 = N.of_nat (length d))
+      by (apply N.mod_small; unfold U32_MAX in Hsmall; lia).
+    rewrite Hmod. split; [reflexivity|]. intros _.
+    destruct Hinv as [Hnd Hlt].
+    assert (Hfresh : ~ In (bnext st) (keys (btab st))) by (intros Hk; apply Hlt in Hk; lia).
+    rewrite (im_insert_fresh _ _ _ Hfresh).
+    unfold R. cbn [btab bnext bmax slive snext smax].
+    split; [first [reflexivity|congruence]|]. split; [first [reflexivity|exact Hm]|]. split; [|split].
+    + split.
+      * cbn [btab]. rewrite keys_app. cbn [keys map fst].
+        apply (Permutation_NoDup (l := bnext st :: keys (btab st))); [apply Permutation_cons_append|].
+        constructor; assumption.
+      * cbn [btab bnext]. intros k Hk. rewrite keys_app in Hk. apply in_app_or in Hk.
+        destruct Hk as [Hk|[<-|[]]]; [apply Hlt in Hk; lia|cbn [fst]; lia].
+    + cbn [keys map fst]. constructor; [|exact Hnd2].
+      intros Hk. destruct (key_in_pair _ _ Hk) as [x Hx]. apply Hin in Hx.
+      apply Hfresh. apply (in_map fst) in Hx. exact Hx.
+    + intros k x. rewrite in_app_iff. cbn [In]. rewrite Hin. tauto.
+  - rewrite <- (R_find _ _ id HR).
+    destruct (im_find id (btab st)) as [d|] eqn:Hf.
+    + destruct (consume_found _ _ _ Hinv Hf) as [st' Hc]. rewrite Hc. cbn [fst snd].
+      split; [reflexivity|]. intros _.
+      destruct (consume_ok_spec _ _ _ _ Hinv Hc) as (_ & Hn' & Hm' & Hinv' & Hin' & _).
+      unfold R. cbn [slive snext smax].
+      split; [congruence|]. split; [congruence|]. split; [exact Hinv'|]. split.
+      * apply assoc_remove_nodup. exact Hnd2.
+      * intros k x. rewrite Hin', assoc_remove_in, Hin. tauto.
+    + rewrite (consume_missing _ _ Hf). cbn [fst snd]. split; [reflexivity|intros _; exact HR].
+Qed.
+
+(* the buffer table of the code behaves exactly like the abstract id -> data table, for every history *)
+Theorem table_refines_spec : forall max ops, brun (bufs_new max) ops = spec_run (spec_new max) ops.
+Proof.
+  intros max ops.
+  assert (Hgen : forall ops st sp, R st sp -> brun st ops = spec_run sp ops).
+  { clear ops. induction ops as [|o t IH]; intros st sp HR; cbn [brun spec_run]; [reflexivity|].
+    destruct (step_refines st sp o HR) as [Hout Hnext].
+    destruct (bstep st o) as [out st1]. destruct (spec_step sp o) as [out2 sp1].
+    cbn [fst snd] in Hout, Hnext. subst out2.
+    destruct out; try reflexivity; f_equal; apply IH; apply Hnext; discriminate. }
+  apply Hgen. apply R_new.
+Qed.
